@@ -37,6 +37,34 @@ class Deadlock(SchedulerAbort):
 
 NEW, READY, BLOCKED, DONE = "new", "ready", "blocked", "done"
 
+# ---- bytecode-granularity points (PEP 669 monitoring; sys.settrace's opcode events are not delivered on 3.12.1) ----
+_ACTIVE = None
+_INSTRUMENTED = set()
+_TOOL = None
+
+
+def _instr_cb(code, offset):
+    s = _ACTIVE
+    if s is not None:
+        s.point(("op", code.co_name, offset))
+
+
+def instrument_opcodes(codes):
+    """Registers an INSTRUCTION callback for the given code objects (idempotent, process-wide)."""
+    global _TOOL
+    mon = getattr(sys, "monitoring", None)
+    if mon is None:
+        return False
+    if _TOOL is None:
+        _TOOL = 3
+        mon.use_tool_id(_TOOL, "verif-sched")
+        mon.register_callback(_TOOL, mon.events.INSTRUCTION, _instr_cb)
+    for co in codes:
+        if co not in _INSTRUMENTED:
+            mon.set_local_events(_TOOL, co, mon.events.INSTRUCTION)
+            _INSTRUMENTED.add(co)
+    return True
+
 
 class _T(object):
     __slots__ = ("tid", "state", "baton", "thread", "blocked_on", "fn", "result", "exc", "started")
@@ -54,11 +82,16 @@ class _T(object):
 
 
 class Scheduler(object):
-    def __init__(self, prefix=(), target_codes=(), pool_size=None, max_points=200000):
+    def __init__(self, prefix=(), target_codes=(), pool_size=None, max_points=200000, opcode_codes=()):
         self.prefix = list(prefix)
         self.choices = []
         self.points = []            # (n_enabled, running_enabled, label) for every real choice point
         self.targets = set(target_codes)
+        # code objects traced at BYTECODE granularity (frame.f_trace_opcodes): the small accessors of shared
+        # mutable state, where the interpreter can switch threads between a call and the use of its result
+        # inside one source line (e.g. `return iter(self.instances)`)
+        self.op_targets = set(opcode_codes)
+        self.op_by_monitoring = bool(self.op_targets) and instrument_opcodes(self.op_targets)
         self.threads = {}
         self.current = None
         self.pool_size = pool_size
@@ -83,14 +116,26 @@ class Scheduler(object):
 
     # ---- tracing -------------------------------------------------------------------------------
     def tracer(self, frame, event, arg):
-        if event == "call" and frame.f_code in self.targets:
-            return self._local
+        if event == "call":
+            co = frame.f_code
+            if co in self.op_targets:
+                if self.op_by_monitoring:
+                    return None             # points come from the INSTRUCTION callback
+                frame.f_trace_opcodes = True
+                return self._local_op
+            if co in self.targets:
+                return self._local
         return None
 
     def _local(self, frame, event, arg):
         if event == "line":
             self.point(("line", frame.f_code.co_name, frame.f_lineno))
         return self._local
+
+    def _local_op(self, frame, event, arg):
+        if event == "opcode":
+            self.point(("op", frame.f_code.co_name, frame.f_lasti))
+        return self._local_op
 
     # ---- enabledness ------------------------------------------------------------------------------
     def _running_tasks(self):
@@ -245,23 +290,28 @@ class Scheduler(object):
 
     def run_main(self, fn):
         """Runs fn() as thread 0 under the scheduler and waits for every task to end."""
+        global _ACTIVE
         self.register_main()
         old = sys.gettrace()
-        sys.settrace(self.tracer)
+        _ACTIVE = self
         try:
-            res = fn()
+            sys.settrace(self.tracer)
+            try:
+                res = fn()
+            finally:
+                sys.settrace(old)
+            # let every remaining task run to completion (a pool's shutdown(wait=True))
+            for t in list(self.threads.values()):
+                if t.tid != 0:
+                    self.block_on(_Future(self, t))
+            if self.abort is not None:
+                raise self.abort
+            for t in self.threads.values():
+                if t.tid != 0 and t.thread.is_alive():
+                    t.thread.join(5)
+            return res
         finally:
-            sys.settrace(old)
-        # let every remaining task run to completion (a pool's shutdown(wait=True))
-        for t in list(self.threads.values()):
-            if t.tid != 0:
-                self.block_on(_Future(self, t))
-        if self.abort is not None:
-            raise self.abort
-        for t in self.threads.values():
-            if t.tid != 0 and t.thread.is_alive():
-                t.thread.join(5)
-        return res
+            _ACTIVE = None
 
     def preemptions(self, upto=None):
         n = 0
